@@ -394,7 +394,7 @@ fn source_of(v: &Val) -> Arc<Source> {
     ))
 }
 
-fn eval(t: &PolicyTable, l: &[Val]) -> Val {
+fn eval(t: &PolicyTable, rpki: Option<&RpkiTable>, l: &[Val]) -> Val {
     let dir = l[1].int();
     let Some((_, assignment)) = t.iter_assignments(if dir == 0 { 1 } else { 2 }).next() else {
         return Val::L(vec![Val::I(-2)]);
@@ -406,7 +406,7 @@ fn eval(t: &PolicyTable, l: &[Val]) -> Val {
     let orig = nh_of(&l[6]);
     if dir == 0 {
         let attrs = Arc::new(attrs);
-        let (filtered, out) = apply_import(assignment, None, &source, &net, &attrs, &mut nexthop);
+        let (filtered, out) = apply_import(assignment, rpki, &source, &net, &attrs, &mut nexthop);
         Val::L(vec![
             Val::b(filtered),
             Val::L(out.iter().map(attr_val).collect()),
@@ -416,7 +416,7 @@ fn eval(t: &PolicyTable, l: &[Val]) -> Val {
         let mut attr = Arc::new(attrs);
         let d = apply_export(
             assignment,
-            None,
+            rpki,
             &source,
             &net,
             &mut attr,
@@ -636,9 +636,49 @@ fn dump(t: &PolicyTable) -> Val {
     ])
 }
 
-fn run_op(t: &mut PolicyTable, op: &Val) -> Val {
+fn rpki_of(v: &Val) -> RpkiTable {
+    // [[ip, mask, max_length, asn], ...]
+    let mut t = RpkiTable::new();
+    let src = Arc::new(IpAddr::V4(Ipv4Addr::new(192, 0, 2, 1)));
+    for e in v.list() {
+        let net = rustybgp_packet::IpNet::new(ip_of(e.at(0)), e.at(1).u8());
+        t.insert(net, Arc::new(Roa::new(e.at(2).u8(), e.at(3).u32(), src.clone())));
+    }
+    t
+}
+
+// RpkiTable::validate as a function of (prefix, origin AS): probed with an
+// empty attribute list and a source whose local AS is the origin.
+fn probe(rpki: Option<&RpkiTable>, l: &[Val]) -> Val {
+    let Some(r) = rpki else {
+        return Val::L(vec![Val::I(-2)]);
+    };
+    let src = Arc::new(Source::new(
+        IpAddr::V4(Ipv4Addr::new(10, 0, 0, 1)),
+        IpAddr::V4(Ipv4Addr::new(10, 0, 0, 254)),
+        65001,
+        l[2].u32(),
+        Ipv4Addr::new(0, 0, 0, 1),
+        PeerRole::Ebgp,
+    ));
+    match r.validate(&src, &nlri_of(&l[1]), &Arc::new(Vec::new())) {
+        None => Val::L(vec![]),
+        Some(v) => Val::L(vec![Val::n(match v.state {
+            RpkiValidationState::NotFound => 0u8,
+            RpkiValidationState::Valid => 1,
+            RpkiValidationState::Invalid => 2,
+        })]),
+    }
+}
+
+fn run_op(t: &mut PolicyTable, rpki: &mut Option<RpkiTable>, op: &Val) -> Val {
     let l = op.list();
     match l[0].int() {
+        11 => {
+            *rpki = Some(rpki_of(&l[1]));
+            Val::L(vec![Val::n(0u8)])
+        }
+        12 => probe(rpki.as_ref(), l),
         1 => {
             let cfg = setcfg_of(&l[2]);
             if l[1].bool() {
@@ -674,7 +714,7 @@ fn run_op(t: &mut PolicyTable, op: &Val) -> Val {
             }
         }
         8 => code_of(t.delete_policy_assignment(dir_of(&l[1]), &names_of(&l[2]), l[3].bool())),
-        9 => eval(t, l),
+        9 => eval(t, rpki.as_ref(), l),
         10 => dump(t),
         x => panic!("verif: bad op {}", x),
     }
@@ -682,9 +722,10 @@ fn run_op(t: &mut PolicyTable, op: &Val) -> Val {
 
 fn run_case(case: &Val) -> Val {
     let mut t = PolicyTable::new();
+    let mut rpki: Option<RpkiTable> = None;
     let mut out = Vec::new();
     for op in case.list() {
-        match catch_unwind(AssertUnwindSafe(|| run_op(&mut t, op))) {
+        match catch_unwind(AssertUnwindSafe(|| run_op(&mut t, &mut rpki, op))) {
             Ok(v) => out.push(v),
             Err(_) => {
                 out.push(Val::L(vec![Val::I(-1)]));
